@@ -32,7 +32,7 @@ def sh(cmd, cwd=None, timeout=1800):
     return p.returncode, p.stdout
 
 
-meta = {"property": prop, "seed": n, "source": "independent sub-agent given only the property text", "at": time.strftime("%Y-%m-%d %H:%M:%S")}
+meta = {"property": prop.rstrip("b"), "round": 2 if prop.endswith("b") else 1, "seed": n, "source": "independent sub-agent given only the property text", "at": time.strftime("%Y-%m-%d %H:%M:%S")}
 assert subprocess.run("git -C /repo status --porcelain --untracked-files=no", shell=True, stdout=subprocess.PIPE, text=True).stdout.strip() == "", "repo dirty"
 
 # ---- 1. scratch worktree
@@ -53,7 +53,7 @@ else:
 # some demos need features (unsize / arc-swap)
 feat = ""
 if "arc_swap" in demo_src or "unsize" in demo_src:
-    feat = " --all-features"
+    feat = " --features unsize,arc-swap"
 readme = open(src + "/README.md").read() if os.path.exists(src + "/README.md") else ""
 if "--no-default-features" in readme:
     feat = " --no-default-features"  # the change only shows in a no_std build of the crate
@@ -108,8 +108,9 @@ finally:
 meta["checks"] = results
 caught = sorted(c for c, r in results.items() if r["rc"] == 1)
 meta["caught_by"] = caught
-meta["own_check_catches"] = prop in caught
-print("caught by:", caught, " own check catches:", prop in caught)
+own = prop.rstrip("b")
+meta["own_check_catches"] = own in caught
+print("caught by:", caught, " own check catches:", own in caught)
 for c, r in sorted(results.items()):
     if r["rc"] != 0:
         print("  %s rc=%d %s %s" % (c, r["rc"], r["first"][:1], r["machinery"]))
